@@ -67,6 +67,16 @@ func main() {
 		}
 		p := loadProgram(*repo, overlay)
 		if *dump != "" {
+			if *dump == "roles" {
+				dumpRoles(p, *verif+"/qedlint/roles.json")
+				return
+			}
+			if *dump == "renamed" {
+				for _, r := range roles.renamed {
+					fmt.Println(r)
+				}
+				return
+			}
 			if *dump == "guardtypes" {
 				for k, want := range guardedFieldTypes {
 					parts := strings.Split(k, ".")
